@@ -217,16 +217,23 @@ Local Open Scope Q_scope.
 
 
 def _shards(cases, max_cases, max_bytes):
-    cur, size = [], 0
-    for i, c in enumerate(cases):
-        n = len(c.coq)
-        if cur and (len(cur) >= max_cases or size + n > max_bytes):
-            yield cur
-            cur, size = [], 0
-        cur.append((i, c))
-        size += n
-    if cur:
-        yield cur
+    """balanced shards: longest-processing-time assignment with cost ~ size^1.5 (models are up to quadratic in the
+    series length), bounded by max_cases / max_bytes per shard"""
+    n = len(cases)
+    nb = max(1, min(n, 2 * NPROC))
+    nb = max(nb, -(-n // max_cases), -(-sum(len(c.coq) for c in cases) // max_bytes))
+    order = sorted(range(n), key=lambda i: -len(cases[i].coq))
+    import heapq
+    heap = [(0.0, b) for b in range(nb)]
+    bins = [[] for _ in range(nb)]
+    for i in order:
+        cost, b = heapq.heappop(heap)
+        bins[b].append(i)
+        heapq.heappush(heap, (cost + len(cases[i].coq) ** 1.5 + 50.0, b))
+    for b in bins:
+        if b:
+            b.sort()
+            yield [(i, cases[i]) for i in b]
 
 
 def run_cases(pid, module, checker, cases, max_cases=400, max_bytes=600_000, timeout=900, extra_imports=''):
@@ -239,7 +246,6 @@ def run_cases(pid, module, checker, cases, max_cases=400, max_bytes=600_000, tim
             except OSError:
                 pass
     jobs = []
-    max_cases = max(1, min(max_cases, -(-len(cases) // (2 * NPROC))))
     for k, shard in enumerate(_shards(cases, max_cases, max_bytes)):
         path = os.path.join(RUN, '%s_%s_%d.v' % (pid, checker, k))
         with open(path, 'w') as f:
